@@ -593,6 +593,7 @@ func (f *Frame) instr(st *State, r *Term, in ssa.Instruction) {
 			}
 			v := f.load(st, l)
 			f.vals[x] = f.nameLoaded(st, v, x.Type())
+			f.entryClosure(l, x.Type())
 		case token.NOT:
 			f.vals[x] = Not(f.term(x.X))
 		case token.SUB:
@@ -748,6 +749,62 @@ func (f *Frame) assumeSlcShape(v *Term) {
 }
 
 // assumeWf records model invariants of a loaded/opaque value: references are allocated.
+// entryClosure: whatever a pre-existing location held at entry refers to pre-existing memory only.
+// (An instance of "the entry heap is closed under reachability"; the solver connects it to the
+// current contents through the frame facts it has.)
+func (f *Frame) entryClosure(l LocVal, t types.Type) {
+	top := f.top()
+	if top.entry == nil || (l.kind != locHeap && l.kind != locElem) {
+		return
+	}
+	switch f.subst(t).Underlying().(type) {
+	case *types.Pointer, *types.Map, *types.Slice, *types.Struct:
+	default:
+		return
+	}
+	if mentionsBound(l.ref) || (l.idx != nil && mentionsBound(l.idx)) {
+		return
+	}
+	key := "entry-closure:" + l.ref.String() + "/" + fmt.Sprint(l.idx) + "/" + fmt.Sprint(len(l.path))
+	for _, pe := range l.path {
+		key += fmt.Sprintf(".%d", pe.field)
+		if pe.idx != nil {
+			return
+		}
+	}
+	if f.ctx.assumed[key] {
+		return
+	}
+	f.ctx.assumed[key] = true
+	ve := f.load(top.entry, l)
+	if ve.size > 40 {
+		return
+	}
+	var facts []*Term
+	var collect func(v *Term, t types.Type, depth int)
+	collect = func(v *Term, t types.Type, depth int) {
+		t = f.subst(t)
+		switch u := t.Underlying().(type) {
+		case *types.Pointer, *types.Map:
+			facts = append(facts, Lt(v, top.entry.alloc))
+		case *types.Slice:
+			facts = append(facts, Lt(SlcBase(v), top.entry.alloc))
+		case *types.Struct:
+			if depth > 1 {
+				return
+			}
+			si := f.structInfo(t)
+			for i := 0; i < u.NumFields(); i++ {
+				collect(si.Get(v, i), u.Field(i).Type(), depth+1)
+			}
+		}
+	}
+	collect(ve, t, 0)
+	if len(facts) > 0 {
+		f.ctx.assume(Implies(And(Le(IntLit(0), l.ref), Lt(l.ref, top.entry.alloc)), And(facts...)))
+	}
+}
+
 // mentionsBound: the term contains a quantifier-bound variable (they are named x!q<n>, x!cp<n>, ...).
 func mentionsBound(t *Term) bool {
 	if t.IsAtom() {
